@@ -67,8 +67,12 @@ def fit_spec(spec):
                 m.predict(HourlyReportingData(synth_hourly(days=20, seed=spec["meter_seed"] + 4), is_electricity_data=True), ignore_disqualification=True)
             m = m.fit(hb, ignore_disqualification=True)
             pred = m.predict(HourlyReportingData(synth_hourly(days=20, seed=spec["meter_seed"] + 1), is_electricity_data=True), ignore_disqualification=True)
+        elif fam == "caltrack":
+            from opendsm.eemeter.models.hourly_caltrack.wrapper import HourlyModel as CT
+            from opendsm.eemeter.models.hourly_caltrack.data import HourlyBaselineData as CTB, HourlyReportingData as CTR
+            m = CT().fit(CTB(synth_hourly(days=365, seed=spec["meter_seed"]), is_electricity_data=True))
+            pred = m.predict(CTR(synth_hourly(days=20, seed=spec["meter_seed"] + 1), is_electricity_data=True))
         else:
-            from opendsm.eemeter.models.hourly_caltrack.wrapper import HourlyCaltrackModel  # noqa
             raise ValueError(fam)
     js = m.to_json()
     num = pred.select_dtypes("number")
